@@ -11,8 +11,10 @@ package control
 // inside a testing/synctest bubble so that time.Now() is virtual and the asynchronous probe
 // goroutine can be awaited deterministically (synctest.Wait).
 //
-//   reset | mode <m> | boot <n> | adv <ns> | dns <host> <4|6> <ttl ns> <key|-> | rm <key>
-//   has <name> <4|6> | look <name> | cdt <ob> <dst> <name> <ans>* | dial <ob> <dst> <name> <rt> <nOut> <ans>*
+//   reset | mode <m> | boot <n> | adv <ns> | dns <host> <qtype> <ttl ns> <key|-> | rm <key> | evict <key>
+//   rmf <basekey> | reload | close | dnsresp <resp> <hasq> <rcodeok> <qname> <qtype> <ttl|-> <key|->
+//   has <name> <4|6> | look <name> | cdt <ob> <dst> <name> <ans>*
+//   dial <ob> <dst> <name> <rt> <nOut> <failfirst> <ans>*   (TCP routeDial; UDP never uses this target, see note)
 //   norm|pa|shp|iplike|canon <s> | jhp <h> <p> | ap <dst> | resv <n>
 
 import (
@@ -22,9 +24,11 @@ import (
 	"io"
 	"net"
 	"net/netip"
+	"os"
 	"strconv"
 	"strings"
 	"sync"
+	"syscall"
 	"testing"
 	"testing/synctest"
 	"time"
@@ -78,29 +82,37 @@ func (c18Conn) SetWriteDeadline(time.Time) error { return nil }
 
 // records the address the control plane sends to the proxy node.
 type c18RecDialer struct {
-	mu   sync.Mutex
-	last string
-	n    int
-	tag  int
-	log  *[]string
+	mu       sync.Mutex
+	tag      int
+	log      *[]string
+	failNext *bool // shared by all node dialers: the next dial fails with ENETUNREACH
 }
 
 func (d *c18RecDialer) DialContext(_ context.Context, network, addr string) (netproxy.Conn, error) {
 	d.mu.Lock()
-	d.last = addr
-	d.n++
 	*d.log = append(*d.log, fmt.Sprintf("%d|%s", d.tag, addr))
+	fail := *d.failNext
+	*d.failNext = false
 	d.mu.Unlock()
+	if fail {
+		// let the probe started by this attempt finish before routeDial retries (determinism)
+		synctest.Wait()
+		return nil, &net.OpError{Op: "dial", Net: network, Err: os.NewSyscallError("connect", syscall.ENETUNREACH)}
+	}
 	return c18Conn{}, nil
 }
 
-func c18Group(log *logrus.Logger, name string, d *componentdialer.Dialer) *outbound.DialerGroup {
+func c18Group(log *logrus.Logger, name string, ds []*componentdialer.Dialer) *outbound.DialerGroup {
+	ann := make([]*componentdialer.Annotation, len(ds))
+	for i := range ann {
+		ann[i] = &componentdialer.Annotation{}
+	}
 	return outbound.NewDialerGroup(
 		&componentdialer.GlobalOption{Log: log, CheckInterval: time.Second},
 		name,
-		[]*componentdialer.Dialer{d},
-		[]*componentdialer.Annotation{{}},
-		outbound.DialerSelectionPolicy{Policy: consts.DialerSelectionPolicy_Fixed, FixedIndex: 0},
+		ds,
+		ann,
+		outbound.DialerSelectionPolicy{Policy: consts.DialerSelectionPolicy_Random},
 		func(bool, *componentdialer.NetworkType, bool) {},
 	)
 }
@@ -340,26 +352,23 @@ type c18World struct {
 	cp      *ControlPlane
 	ctrl    *DnsController
 	script  map[string][]string // probe answers per name, one token per resolver
+	probed  map[string]bool     // names for which a POSITIVE probe completed in this episode
 	calls   int
 	allOuts []*outbound.DialerGroup
 	matcher *RoutingMatcher
 	log     *logrus.Logger
 }
 
+// the design capacity of the verified-name filter (control_plane.go realDomainSetCapacity, model realCap)
+const c18RealCap = 2048
+
 func (w *c18World) reset() {
-	ctrl := &DnsController{dnsControllerStore: newDnsControllerStore()}
-	_ = ctrl.TryUpdateRuntime(&DnsControllerOption{
-		Log: w.log,
-		// a fixed cache TTL changes Deadline only; knowledge must follow the ORIGINAL deadline
-		FixedDomainTtl: map[string]int{"a.test": 1, "www.example.com": 3600, "re.test": 0},
-		NewCache: func(fqdn string, answers, ns, extra []dnsmessage.RR, deadline, originalDeadline time.Time) (*DnsCache, error) {
-			return &DnsCache{Answer: answers, NS: ns, Extra: extra, Deadline: deadline, OriginalDeadline: originalDeadline}, nil
-		},
-	}, nil)
+	ctrl := w.newCtrl()
 	ctx, cancel := context.WithCancel(context.Background())
 	w.ctrl = ctrl
 	w.cp = &ControlPlane{
-		realDomainSet: bloom.NewWithEstimates(2048, 0.001),
+		// the production constructor's filter (control_plane.go newControlPlaneWithContextOptions)
+		realDomainSet: bloom.NewWithEstimates(c18RealCap, 0.001),
 		log:           w.log,
 		ctx:           ctx,
 		cancel:        cancel,
@@ -373,6 +382,23 @@ func (w *c18World) reset() {
 	}
 	w.cp.dnsController = ctrl
 	w.script = map[string][]string{}
+	w.probed = map[string]bool{}
+}
+
+func (w *c18World) newCtrl() *DnsController {
+	store := newDnsControllerStore()
+	// no janitor / evictor goroutine is started for this store: Close must not wait for them
+	store.janitorDone, store.evictorDone = nil, nil
+	ctrl := &DnsController{dnsControllerStore: store}
+	_ = ctrl.TryUpdateRuntime(&DnsControllerOption{
+		Log: w.log,
+		// a fixed cache TTL changes Deadline only; knowledge must follow the ORIGINAL deadline
+		FixedDomainTtl: map[string]int{"a.test": 1, "www.example.com": 3600, "re.test": 0},
+		NewCache: func(fqdn string, answers, ns, extra []dnsmessage.RR, deadline, originalDeadline time.Time) (*DnsCache, error) {
+			return &DnsCache{Answer: answers, NS: ns, Extra: extra, Deadline: deadline, OriginalDeadline: originalDeadline}, nil
+		},
+	}, nil)
+	return ctrl
 }
 
 func (w *c18World) peekKnowledge(d string, dst netip.AddrPort) bool {
@@ -516,13 +542,22 @@ func TestVerifC18(t *testing.T) {
 	// ------------------------------------------------ stateful world (virtual time)
 	w := &c18World{log: log}
 	var dialLog []string
-	recs := make([]*c18RecDialer, 5)
-	for i := range recs {
-		recs[i] = &c18RecDialer{tag: i, log: &dialLog}
-		d := componentdialer.NewDialer(recs[i], &componentdialer.GlobalOption{Log: log, CheckInterval: time.Second},
-			componentdialer.InstanceOption{DisableCheck: true}, &componentdialer.Property{})
-		w.allOuts = append(w.allOuts, c18Group(log, fmt.Sprintf("g%d", i), d))
+	failNext := false
+	// two interchangeable node dialers per group: after a forced-unavailable report the retry of
+	// routeDial finds the other one.  Rebuilt after every injected failure (fresh health state).
+	buildGroups := func() {
+		w.allOuts = w.allOuts[:0]
+		for i := 0; i < 5; i++ {
+			var ds []*componentdialer.Dialer
+			for j := 0; j < 2; j++ {
+				ds = append(ds, componentdialer.NewDialer(&c18RecDialer{tag: i, log: &dialLog, failNext: &failNext},
+					&componentdialer.GlobalOption{Log: log, CheckInterval: time.Second},
+					componentdialer.InstanceOption{DisableCheck: true}, &componentdialer.Property{}))
+			}
+			w.allOuts = append(w.allOuts, c18Group(log, fmt.Sprintf("g%d", i), ds))
+		}
 	}
+	buildGroups()
 	w.matcher = c18BuildMatcher(t, log)
 
 	oldResolver := resolveIp46ForRealDomainProbe
@@ -549,6 +584,9 @@ func TestVerifC18(t *testing.T) {
 		if tok[3] == '1' {
 			e6 = io.ErrUnexpectedEOF
 		}
+		if tok[0] == '1' || tok[1] == '1' {
+			w.probed[host] = true // some resolver answered this exact string with an address
+		}
 		return res, e4, e6
 	}
 
@@ -560,6 +598,40 @@ func TestVerifC18(t *testing.T) {
 	src := netip.MustParseAddrPort("192.0.2.10:12345")
 
 	synctest.Test(t, func(t *testing.T) {
+		// ---- saturation episode: many names verified by positive probes (real probeAndUpdateRealDomain).
+		// Deterministic oracle: the filter never holds more set bits than c18RealCap insertions can set
+		// (a filter that is only ever added to ends up accepting every name, see known finding
+		// c18-real-domain-bloom-saturates); the number of times it was cleared is compared with the model.
+		{
+			w.reset()
+			w.cp.dialMode = consts.DialMode_Domain
+			n := 3*c18RealCap + 100
+			stats.Inc("op.sat")
+			st.Emit(fmt.Sprintf("sat %d", n), VRecover(func() string {
+				bounded, clears := true, 0
+				limit := uint(c18RealCap) * w.cp.realDomainSet.K()
+				prev := uint(0)
+				for i := 0; i < n; i++ {
+					name := fmt.Sprintf("sat-%d.test", i)
+					w.script[name] = []string{"1000"}
+					w.cp.probeAndUpdateRealDomain(name)
+					cnt := w.cp.realDomainSet.BitSet().Count()
+					if cnt > limit {
+						bounded = false
+					}
+					if cnt < prev {
+						clears++
+					}
+					prev = cnt
+				}
+				out := fmt.Sprintf("bounded=%s clears=%d", c18Bool(bounded), clears)
+				if !bounded {
+					out += " ORACLE:verified-name-filter-holds-more-than-its-design-capacity"
+				}
+				return out
+			}))
+			w.cp.cancel()
+		}
 		for ep := 0; ep < nEpisodes; ep++ {
 			w.reset()
 			st.Emit("reset", "ok")
@@ -598,9 +670,9 @@ func TestVerifC18(t *testing.T) {
 						continue
 					}
 					is4 := r.Chance(0.5)
-					qtype, fam := dnsmessage.TypeAAAA, "6"
+					qtype, fam := dnsmessage.TypeAAAA, "28"
 					if is4 {
-						qtype, fam = dnsmessage.TypeA, "4"
+						qtype, fam = dnsmessage.TypeA, "1"
 					}
 					ttl := []int{2, 5, 30, 600}[r.Intn(4)]
 					fq := dnsmessage.CanonicalName(host)
@@ -617,21 +689,118 @@ func TestVerifC18(t *testing.T) {
 			}
 			nOps := 12 + r.Intn(30)
 			for k := 0; k < nOps; k++ {
-				switch c := r.Intn(20); {
+				switch c := r.Intn(24) - 4; {
+				case c < -2: // a DNS response as it arrives from the upstream (gate of NormalizeAndCacheDnsResp_)
+					host := pool[r.Intn(len(pool))]
+					if r.Chance(0.2) {
+						host = genA.caseVariant(host)
+					}
+					qname := dnsmessage.Fqdn(host)
+					qtype := []uint16{dnsmessage.TypeA, dnsmessage.TypeA, dnsmessage.TypeAAAA, dnsmessage.TypeAAAA, dnsmessage.TypeHTTPS, dnsmessage.TypeTXT}[r.Intn(6)]
+					isResp, hasQ := !r.Chance(0.08), !r.Chance(0.08)
+					rcode := []int{dnsmessage.RcodeSuccess, dnsmessage.RcodeSuccess, dnsmessage.RcodeSuccess, dnsmessage.RcodeNameError, dnsmessage.RcodeServerFailure, dnsmessage.RcodeRefused}[r.Intn(6)]
+					ttlTok := "-"
+					msg := &dnsmessage.Msg{MsgHdr: dnsmessage.MsgHdr{Response: isResp, Rcode: rcode}}
+					if hasQ {
+						msg.Question = []dnsmessage.Question{{Name: qname, Qtype: qtype, Qclass: dnsmessage.ClassINET}}
+					}
+					if r.Chance(0.65) { // with answers; otherwise NODATA / NXDOMAIN shape
+						ttl := []uint32{0, 1, 2, 30, 600, 31536000, 31536001, 4000000000}[r.Intn(8)]
+						ttlTok = strconv.FormatUint(uint64(ttl), 10)
+						msg.Answer = []dnsmessage.RR{
+							&dnsmessage.A{Hdr: dnsmessage.RR_Header{Name: qname, Rrtype: dnsmessage.TypeA, Class: dnsmessage.ClassINET, Ttl: ttl}, A: net.IPv4(93, 184, 216, 34)},
+							&dnsmessage.A{Hdr: dnsmessage.RR_Header{Name: qname, Rrtype: dnsmessage.TypeA, Class: dnsmessage.ClassINET, Ttl: 7}, A: net.IPv4(93, 184, 216, 35)},
+						}
+					}
+					key := ""
+					if r.Chance(0.5) {
+						key = w.ctrl.cacheKey(qname, qtype) + "|" + []string{"asis@1.1.1.1:53", "u0"}[r.Intn(2)]
+					}
+					stats.Inc("op.dnsresp")
+					if rcode == dnsmessage.RcodeSuccess && len(msg.Answer) == 0 && isResp && hasQ {
+						stats.Inc("op.dnsresp.nodata")
+					}
+					if rcode != dnsmessage.RcodeSuccess {
+						stats.Inc("op.dnsresp.error-rcode")
+					}
+					op := fmt.Sprintf("dnsresp %s %s %s %s %d %s %s", c18Bool(isResp), c18Bool(hasQ), c18Bool(rcode == dnsmessage.RcodeSuccess), c18Hex(qname), qtype, ttlTok, c18Hex(key))
+					st.Emit(op, VRecover(func() string {
+						n0 := 0
+						w.ctrl.dnsCache.Range(func(_, _ any) bool { n0++; return true })
+						_, had := w.ctrl.dnsCache.Load(key)
+						if key == "" {
+							_, had = w.ctrl.dnsCache.Load(w.ctrl.cacheKey(strings.ToLower(qname), qtype))
+						}
+						if err := w.ctrl.NormalizeAndCacheDnsResp_(msg, key); err != nil {
+							return "err:" + err.Error()
+						}
+						if !isResp || !hasQ || rcode != dnsmessage.RcodeSuccess {
+							n1 := 0
+							w.ctrl.dnsCache.Range(func(_, _ any) bool { n1++; return true })
+							if n1 != n0 {
+								return "skip-but-cache-changed"
+							}
+							return "skip"
+						}
+						_ = had
+						usedKey := key
+						if usedKey == "" {
+							usedKey = w.ctrl.cacheKey(strings.ToLower(qname), qtype)
+						}
+						keys = append(keys, usedKey)
+						return "ok"
+					}))
+				case c < -1: // family removal (DNS answer rejected by response routing)
+					if len(keys) == 0 {
+						continue
+					}
+					bk := dnsCacheBaseKey(keys[r.Intn(len(keys))])
+					stats.Inc("op.rmf")
+					st.Emit("rmf "+c18Hex(bk), VRecover(func() string { w.ctrl.RemoveDnsRespCacheFamily(bk); return "ok" }))
+				case c < 0:
+					switch r.Intn(6) {
+					case 0: // reload: clone the cache, restore it into a fresh store
+						stats.Inc("op.reload")
+						st.Emit("reload", VRecover(func() string {
+							entries := w.ctrl.CloneCacheForReload()
+							fresh := w.newCtrl()
+							n := fresh.RestoreReloadCache(entries, nil, time.Now())
+							w.ctrl = fresh
+							w.cp.dnsController = fresh
+							return fmt.Sprintf("restored=%d", n)
+						}))
+					case 1: // store teardown
+						stats.Inc("op.close")
+						st.Emit("close", VRecover(func() string { _ = w.ctrl.Close(); return "ok" }))
+						// a closed store is not used again by production: continue on a fresh one would
+						// hide nothing, but keep the episode going on the emptied store for has/cdt
+					default: // janitor / LRU eviction of one entry
+						if len(keys) == 0 {
+							continue
+						}
+						key := keys[r.Intn(len(keys))]
+						stats.Inc("op.evict")
+						st.Emit("evict "+c18Hex(key), VRecover(func() string {
+							if v, ok := w.ctrl.dnsCache.Load(key); ok {
+								w.ctrl.evictDnsRespCacheIfSame(key, v.(*DnsCache))
+							}
+							return "ok"
+						}))
+					}
 				case c < 4: // resolution through dae
 					host := pool[r.Intn(len(pool))]
-					switch r.Intn(8) {
-					case 0:
+					switch r.Intn(10) {
+					case 0, 1:
 						host = genA.caseVariant(host)
-					case 1:
-						host, _ = genA.domain(pool)
+					case 2: // a question name that is an address literal: the "pure IP" bypass
+						host = append(append([]string{}, c18V4...), "::1", "2001:db8::1", "1.2.3.4.")[r.Intn(len(c18V4)+3)]
 					}
 					is4 := r.Chance(0.6)
-					qtype, fam := dnsmessage.TypeAAAA, "6"
+					qtype, fam := dnsmessage.TypeAAAA, "28"
 					if is4 {
-						qtype, fam = dnsmessage.TypeA, "4"
+						qtype, fam = dnsmessage.TypeA, "1"
 					}
-					ttl := []int{-1, 0, 1, 2, 2, 5, 30, 600}[r.Intn(8)]
+					ttl := []int{0, 1, 2, 2, 5, 30, 600}[r.Intn(7)]
 					key := ""
 					if r.Chance(0.35) {
 						key = w.ctrl.cacheKey(host, qtype) + "|" + []string{"asis@1.1.1.1:53", "asis@8.8.8.8:53", "u0"}[r.Intn(3)]
@@ -748,11 +917,17 @@ func TestVerifC18(t *testing.T) {
 					} else {
 						stats.Inc("cdt.outbound.user")
 					}
+					knewBefore := w.peekKnowledge(d, dst)
 					st.Emit(strings.TrimRight(op, " "), VRecover(func() string {
 						w.calls = 0
 						target, reroute, dialIp := w.cp.ChooseDialTarget(consts.OutboundIndex(ob), dst, d)
 						synctest.Wait() // let the asynchronous probe (if any) finish
-						out := fmt.Sprintf("t=%s rr=%s ip=%s calls=%d", c18Hex(target), c18Bool(reroute), c18Bool(dialIp), w.calls)
+						out := fmt.Sprintf("t=%s rr=%s ip=%s probe=%s", c18Hex(target), c18Bool(reroute), c18Bool(dialIp), c18Bool(w.calls > 0))
+						// implementation-side oracle (no model): a name is used in domain mode only if it
+						// has unexpired knowledge or a POSITIVE probe of this exact string happened
+						if mode == "domain" && target != dst.String() && !knewBefore && !w.probed[d] {
+							out += " ORACLE:unverified-name-used-in-domain-mode"
+						}
 						// property-level oracles on the implementation, independent of the model
 						reserved := consts.OutboundIndex(ob).IsReserved()
 						if mode == "ip" || d == "" || reserved {
@@ -801,11 +976,8 @@ func TestVerifC18(t *testing.T) {
 					}
 					ans := answers(d)
 					nOut := []int{5, 5, 5, 5, 5, 5, 5, 5, 4, 3, 2}[r.Intn(11)]
-					network := "tcp"
+					fail := r.Chance(0.25)
 					proto := consts.L4ProtoType_TCP
-					if r.Chance(0.2) {
-						network, proto = "udp", consts.L4ProtoType_UDP
-					}
 					w.cp.outbounds = w.allOuts[:nOut]
 					rt := VRecover(func() string {
 						o, _, _, err := w.cp.Route(src, dst, d, proto, &bpfRoutingResult{Outbound: uint8(ob)})
@@ -819,34 +991,54 @@ func TestVerifC18(t *testing.T) {
 						stats.Sample("route-crash " + c18Hex(d) + " " + rt)
 						rt = "err"
 					}
-					op := fmt.Sprintf("dial %d %s %s %s %d %s", ob, c18DstTok(dst), c18Hex(d), rt, nOut, strings.Join(ans, " "))
+					op := fmt.Sprintf("dial %d %s %s %s %d %s %s", ob, c18DstTok(dst), c18Hex(d), rt, nOut, c18Bool(fail), strings.Join(ans, " "))
 					stats.Inc("dial.mode." + mode)
 					stats.Inc("dial.class." + class)
+					if fail {
+						stats.Inc("dial.first-attempt-fails")
+					}
 					st.Emit(strings.TrimRight(op, " "), VRecover(func() string {
 						w.calls = 0
 						dialLog = dialLog[:0]
+						failNext = fail
 						_, res, err := w.cp.routeDial(context.Background(), &proxyDialParam{
-							Outbound: consts.OutboundIndex(ob), Domain: d, Src: src, Dest: dst, Network: network,
+							Outbound: consts.OutboundIndex(ob), Domain: d, Src: src, Dest: dst, Network: "tcp",
 						})
+						failNext = false
 						synctest.Wait()
+						if fail {
+							buildGroups()
+						}
+						// the sequence of (group, address) handed to node dialers; an immediate repeat of the
+						// same dial without an injected failure (e.g. a dual-stack dial) is not a difference
+						var parts []string
+						for i, e := range dialLog {
+							if i > 0 && !fail && e == dialLog[i-1] {
+								continue
+							}
+							p := strings.SplitN(e, "|", 2)
+							parts = append(parts, fmt.Sprintf("ob=%s t=%s", p[0], c18Hex(p[1])))
+						}
+						if len(dialLog) > 1 {
+							stats.Inc("dial.retried")
+							if dialLog[0] != dialLog[1] {
+								stats.Inc("dial.retried.different-decision")
+							}
+						}
 						if err != nil {
 							stats.Inc("dial.err")
-							return fmt.Sprintf("err calls=%d", w.calls)
+							parts = append(parts, "err")
+						} else {
+							last := strings.SplitN(dialLog[len(dialLog)-1], "|", 2)
+							if last[1] != res.DialTarget {
+								return "dialed-address-differs-from-DialTarget"
+							}
+							if last[0] != strconv.Itoa(ob) {
+								stats.Inc("dial.rerouted")
+							}
+							parts[len(parts)-1] += " ip=" + c18Bool(res.IsDialIp)
 						}
-						if len(dialLog) != 1 {
-							return fmt.Sprintf("dialed-%d-times", len(dialLog))
-						}
-						parts := strings.SplitN(dialLog[0], "|", 2)
-						if parts[1] != res.DialTarget {
-							return "dialed-address-differs-from-DialTarget"
-						}
-						if parts[0] != rt && (mode == "domain++" && !consts.OutboundIndex(ob).IsReserved() && d != "") {
-							stats.Inc("dial.reroute-disagrees-with-route")
-						}
-						if parts[0] != strconv.Itoa(ob) {
-							stats.Inc("dial.rerouted")
-						}
-						return fmt.Sprintf("ob=%s t=%s ip=%s calls=%d", parts[0], c18Hex(parts[1]), c18Bool(res.IsDialIp), w.calls)
+						return strings.Join(parts, " ; ") + " probe=" + c18Bool(w.calls > 0)
 					}))
 				}
 			}
